@@ -61,27 +61,43 @@ STRUCT_CODES = {  # code -> (size, signed, kind)
 }
 
 
-def parse_struct_format(fmt: str):
-    """'>HBB10s5sH' -> [('H',1), ..., ('s',10)]; only big-endian standard sizes."""
-    if not fmt or fmt[0] not in ">!":
+def parse_struct_format(fmt):
+    """'>HBB10s5sH' -> [('H',1), ..., ('s',10)]; only big-endian standard sizes.  FmtStr: counts may be symbolic."""
+    from .values import FmtStr, Sym
+
+    parts = fmt.parts if isinstance(fmt, FmtStr) else [fmt]
+    first = parts[0] if parts and isinstance(parts[0], str) else ""
+    if not first or first[0] not in ">!":
         raise Unsupported(f"struct format without big-endian prefix: {fmt!r}")
     out = []
-    num = ""
-    for ch in fmt[1:]:
-        if ch.isdigit():
-            num += ch
+    num = None  # pending count: str digits or Sym
+    skip_first = True
+    for part in parts:
+        if isinstance(part, Sym):
+            if num not in (None, ""):
+                raise Unsupported("struct format: digits followed by symbolic count")
+            num = part
             continue
-        if ch == " ":
-            continue
-        cnt = int(num) if num else 1
-        num_given = bool(num)
-        num = ""
-        if ch == "s":
-            out.append(("s", cnt))
-        elif ch in STRUCT_CODES:
-            out.extend([(ch, 1)] * cnt)
-        else:
-            raise Unsupported(f"struct code {ch!r}")
+        text = part[1:] if skip_first else part
+        skip_first = False
+        for ch in text:
+            if ch.isdigit():
+                if isinstance(num, Sym):
+                    raise Unsupported("struct format: symbolic count followed by digits")
+                num = (num or "") + ch
+                continue
+            if ch == " ":
+                continue
+            cnt = num if isinstance(num, Sym) else (int(num) if num else 1)
+            num = None
+            if ch == "s":
+                out.append(("s", cnt))
+            elif ch in STRUCT_CODES:
+                if isinstance(cnt, Sym):
+                    raise Unsupported("symbolic repeat count of a numeric struct code")
+                out.extend([(ch, 1)] * cnt)
+            else:
+                raise Unsupported(f"struct code {ch!r}")
     return out
 
 
@@ -530,6 +546,7 @@ class CallMixin:
         base_pc = len(path.pc)
         results = []
         pending = [[]]
+        self.pure_depth = getattr(self, "pure_depth", 0) + 1
         try:
             while pending:
                 pre = pending.pop()
@@ -555,6 +572,7 @@ class CallMixin:
                 if len(results) > 256:
                     raise Unsupported("too many sub-paths in pure evaluation")
         finally:
+            self.pure_depth -= 1
             path.prefix, path.pos, path.trace, path.ex.pending = saved[0], saved[1], saved[2], saved[3]
             path.truncate(base_pc)
         if not results:
